@@ -9,7 +9,7 @@
 (* tree; random: N pipelines of length LongDepth (TLC's RandomElement).    *)
 (***************************************************************************)
 EXTENDS SwcBase, SequencesExt, Json, IOUtils
-CONSTANTS PipeLen, StartN, NRandom, LongDepth
+CONSTANTS PipeLen, StartN, NRandom, LongDepth, SingleN
 Sel == 0 .. 2
 Inst == { <<"sort", 0, 0>>, <<"io", 0, 0>>, <<"io_sorted", 0, 0>>, <<"translate_origin", 0, 0>>, <<"normalize", 0, 0>>, <<"radius_reset", 0, 0>>,
           <<"translate", 0, 0>>, <<"scale", 0, 0>>, <<"scale", 1, 0>>, <<"rot90z", 0, 0>>, <<"rotate", 1, 0>>, <<"smooth", 3, 0>>, <<"smooth", 5, 0>>,
@@ -22,9 +22,13 @@ Starts == UNION { Topos(n) : n \in StartN }
 RECURSIVE Pipes(_)
 Pipes(k) == IF k = 0 THEN { <<>> } ELSE { Append(p, i) : p \in Pipes(k - 1), i \in Inst }
 Exh  == { [P |-> P, pipe |-> p] : P \in Starts, p \in Pipes(PipeLen) }
-Big  == << <<-1, 0, 1, 1, 3, 3, 0, 6>>, <<-1, 3, 0, 0, 3, 4>>, <<-1, 0, 1, 2, 3>>, <<-1, 0, 0, 0, 1, 1, 2>> >>
-Rnd  == { [P |-> Big[1 + (k % 4)], pipe |-> [j \in 1 .. LongDepth |-> RandomElement(Inst)], k |-> k] : k \in 1 .. NRandom }
-AllSeq   == SetToSeq(Exh) \o SetToSeq(Rnd)
+\* every single operation instance on every topology of SingleN nodes under every numbering (children numbered before their parents, before their grandparents, ...)
+Exh1 == { [P |-> P, pipe |-> <<i>>] : P \in UNION { Topos(n) : n \in SingleN }, i \in Inst }
+Big  == << <<-1, 0, 1, 1, 3, 3, 0, 6>>, <<-1, 3, 0, 0, 3, 4>>, <<-1, 0, 1, 2, 3>>, <<-1, 0, 0, 0, 1, 1, 2>>,
+           <<-1, 4, 0, 0, 3, 1>>, <<-1, 2, 3, 4, 0>>, <<-1, 5, 1, 0, 3, 4, 2>>, <<-1, 6, 6, 0, 3, 3, 4>> >>
+ASSUME \A k \in 1 .. Len(Big) : WF(Big[k])
+Rnd  == { [P |-> Big[1 + (k % Len(Big))], pipe |-> [j \in 1 .. LongDepth |-> RandomElement(Inst)], k |-> k] : k \in 1 .. NRandom }
+AllSeq   == SetToSeq(Exh) \o SetToSeq(Exh1) \o SetToSeq(Rnd)
 Numbered == [k \in 1 .. Len(AllSeq) |-> [cid |-> k] @@ AllSeq[k]]
 VARIABLE done
 Init == done = ndJsonSerialize(IOEnv.OUT, Numbered)
